@@ -344,3 +344,8 @@ Example rc_example_run :
   | _ => False
   end.
 Proof. vm_compute. repeat split; reflexivity. Qed.
+
+(* nothing beyond the encoder's bytes is ever requested *)
+Lemma rc_sim_no_overread all t0 tail done d t :
+  rc_sim all t0 tail done d t -> rd_over (rdec_normalize d) = 0.
+Proof. intros (_ & _ & _ & rest & _ & _ & (_ & Hover & _)). exact Hover. Qed.
